@@ -22,7 +22,7 @@ ASSUMPTIONS = [
     "event ids are not promised to survive the migration",
     "one migration per process at a time (peewee keeps one global database object)",
 ]
-POOL = ["aw-watcher-window_host", "aw-watcher-afk_hôst-ü", "bücket 日本 'q'", "b%4"]
+POOL = ["aw-watcher-window_host", "aw-watcher-afk_hôst-ü", "bücket 日本 'q'", "b%4", "AW-Watcher-Window_Host"]  # the last differs from the first in letter case only
 
 
 def budget(tier):
@@ -32,7 +32,7 @@ def budget(tier):
 @st.composite
 def strategy(draw, tier="quick"):
     big = tier == "thorough"
-    nb = draw(st.integers(0, 4))
+    nb = draw(st.integers(0, 5))
     buckets = []
     for i in range(nb):
         nmax = 40
